@@ -57,32 +57,14 @@ def alpha(cfg, crate, rep):
     rej = [n for n in common.hir_walk(loops[0]["body"]) if n["k"] == "Ret"] if loops else []
     rep.ob("C13.alpha", "%s|PrintableString|reject-returns-err" % cfg, len(rej) == 1 and "InvalidAsn1String" in str(rej[0]), "any other byte returns Err(InvalidAsn1String)")
     rep.sample({"rule": "C13.alpha", "type": "PrintableString", "admitted": "".join(sorted(chr(x) for x in (a or set())))})
-    # Ia5String
-    fn = T % "Ia5String"
-    rep.fn(fn)
-    I, out, fl = fails_of(crate, fn)
-    ok = len(fl) == 1
-    if ok:
-        c = fl[0][0]
-        ats = F.atoms(c)
-        ok = len(ats) == 1 and "core::str::<impl str>::is_ascii(input" in str(ats[0]) and not F.evalf(c, {ats[0]: True}) and F.evalf(c, {ats[0]: False})
-    v = core(out["value"])
-    rep.ob("C13.alpha", "%s|Ia5String" % cfg, ok, "Ia5String rejects exactly the inputs that are not ASCII (U+0000..U+007F)", found=[F.show(x[0]) for x in fl])
-    # TeletexString
-    fn = T % "TeletexString"
-    rep.fn(fn)
-    I, out, fl = fails_of(crate, fn)
-    ok = False
-    found = [F.show(x[0]) for x in fl]
-    if len(fl) == 1:
-        ats = F.atoms(fl[0][0])
-        if len(ats) == 1 and ats[0][0] == "all" and "as_bytes" in ats[0][1] or (len(ats) == 1 and ats[0][0] == "all"):
-            a = ats[0]
-            ok = a[2] in ("inrange(input[], 32, 127, True)", "inrange(input.as_bytes[], 32, 127, True)") or ("inrange(" in a[2] and ", 32, 127, True)" in a[2] and "[]" in a[2])
-            ok = ok and not F.evalf(fl[0][0], {a: True}) and F.evalf(fl[0][0], {a: False})
-            recv_ok = "as_bytes" in calls_txt(crate.body(fn))
-            ok = ok and recv_ok
-    rep.ob("C13.alpha", "%s|TeletexString" % cfg, ok, "TeletexString admits exactly the texts all of whose bytes are in 0x20..=0x7F", found=found)
+    # Ia5String / TeletexString: the single rejection is a per-byte predicate over the whole input
+    for ty, want, text in (("Ia5String", set(range(0x00, 0x80)), "Ia5String rejects exactly the inputs that are not ASCII (U+0000..U+007F)"),
+                           ("TeletexString", set(range(0x20, 0x80)), "TeletexString admits exactly the texts all of whose bytes are in 0x20..=0x7F")):
+        fn = T % ty
+        rep.fn(fn)
+        I, out, fl = fails_of(crate, fn)
+        acc, why = byte_acceptance(I, fl)
+        rep.ob("C13.alpha", "%s|%s" % (cfg, ty), acc == want, text, expected="%d byte values" % len(want), found=why if acc is None else ("accepts %d byte values; differs at %s" % (len(acc), sorted(acc ^ want)[:8])))
     # BmpString
     fn = "string::BmpString::from_utf16be"
     rep.fn(fn)
@@ -135,6 +117,49 @@ def alpha(cfg, crate, rep):
         v = core(out["value"])
         stores = isinstance(v, StructV) and v.variant == "Ok" and places(v) == {"vec"} and not [r for r in roots(v) if r.startswith("op:")]
         rep.ob("C13.enc", "%s|%s|stores-input" % (cfg, fn), stores, "the accepted bytes are stored unchanged", found=v.r()[:120])
+
+
+def byte_acceptance(I, fl):
+    """Set of byte values b such that a text consisting of bytes like b is accepted, from the single rejection condition.
+    Recognised: !is_ascii(input); !all(bytes, phi(b)); any(bytes, phi(b)); with phi built from range / comparison tests of b."""
+    if len(fl) != 1:
+        return None, "expected exactly one rejection, found %d" % len(fl)
+    c = fl[0][0]
+    ats = F.atoms(c)
+    if len(ats) != 1:
+        return None, "rejection is not a single whole-input test: %s" % F.show(c)
+    a = ats[0]
+    rejects_when_true = F.evalf(c, {a: True}) and not F.evalf(c, {a: False})
+    rejects_when_false = F.evalf(c, {a: False}) and not F.evalf(c, {a: True})
+    if a[0] == "opaque" and "::is_ascii(input" in str(a[1]) and rejects_when_false:
+        return set(range(0x80)), "is_ascii"
+    if a[0] in ("all", "any") and ("input" in a[1]):
+        vals = I.atom_vals.get(a)
+        if not vals:
+            return None, "per-byte predicate body not recorded"
+        body, elem = vals
+        var = core(elem).r()
+        # the element may be rendered through adaptors (bytes(), iter()): take the variable from the body's atoms
+        vs = set()
+        for b in F.atoms(body):
+            if b[0] == "inrange":
+                vs.add(b[1])
+            elif b[0] == "cmp":
+                vs |= {x for x in (b[2], b[3]) if not str(x).lstrip("-").isdigit()}
+            else:
+                return None, "unrecognised per-byte test %s" % F.show_atom(b)
+        if len(vs) != 1:
+            return None, "per-byte predicate is not over one variable: %s" % sorted(vs)
+        var = next(iter(vs))
+        sat = {x for x in range(256) if F.int_semantics(body, var, x)}
+        if a[0] == "all":
+            if rejects_when_false:
+                return sat, "all(%s)" % F.show(body)
+            return None, "input is rejected when all bytes satisfy the predicate"
+        if rejects_when_true:
+            return set(range(256)) - sat, "!any(%s)" % F.show(body)
+        return None, "input is rejected when no byte satisfies the predicate"
+    return None, "unrecognised whole-input test %s" % F.show_atom(a)
 
 
 def interp_param(name):
